@@ -104,6 +104,7 @@ class Ctx(object):
 
 
 def guard(ctx, case, what, fn, *a, **k):
+    passthrough = k.pop("_passthrough", ())
     """run a call into the code under test made by an oracle.  TraphException propagates (the caller decides whether
     refusal is legal); any other exception raised *inside the tree under test* is a violation (clause 'exception');
     an exception raised by the harness itself is a HarnessError (exit 2, never a VIOLATION)."""
@@ -114,7 +115,7 @@ def guard(ctx, case, what, fn, *a, **k):
     except (Violation, HarnessError):
         raise
     except Exception as e:
-        if type(e).__module__.startswith("hypothesis"):
+        if type(e).__module__.startswith("hypothesis") or isinstance(e, passthrough):
             raise
         fr = _innermost_repo_frame(e.__traceback__)
         if fr is None:
@@ -159,12 +160,13 @@ class Case(object):
         return guard(self.ctx, self, what, fn, *a, **k)
 
     # -- write ops ---------------------------------------------------------------------------------
-    def step(self, op):
+    def step(self, op, record=True):
         led = self.led
         if not led.applicable(op, self.config.backend):
             self.ctx.skipped_ops += 1
             return None
-        self.ops.append(op)
+        if record:
+            self.ops.append(op)
         self.nsteps += 1
         pre = self.prop.before_op(self, op)
         out = self.idx.apply(op)
